@@ -1697,3 +1697,160 @@ Lemma first_watch_decides_c05 :
   last (outa _ _ y2) R_OK = RNilArr /\ value_of (sst _ _ y2) (str "j") = None /\
   last (outa _ _ y3) R_OK = RArr [RSimple (str "OK")] /\ value_of (sst _ _ y3) (str "j") = Some (VStr (str "1")).
 Proof. cbv zeta. repeat split; vm_compute; reflexivity. Qed.
+
+(* ------------------------------------------------------------------ executor-level transactions *)
+Section XTx.
+  Variable St : Type.
+  Variable cmd : Type.
+  Variable V : Type.
+  Variable exec_plain : St -> cmd -> St * resp.
+  Variable kind : cmd -> ckind.
+  Variable read_key : St -> bytes -> V.
+  Variable veqb : V -> V -> bool.
+
+  Notation XSTEP := (x_step St cmd V exec_plain kind read_key veqb).
+  Notation XRUN := (x_run St cmd exec_plain kind).
+  Notation XWATCH := (x_watch St V read_key).
+  Notation XVIOL := (x_violated St V read_key veqb).
+  Notation xstate := (xstate St cmd V).
+
+  (* while a transaction is open nothing but EXEC touches the executor's data *)
+  Lemma x_queued_no_effect (x : xstate) c : x_in _ _ _ x = true -> kind c <> KExec ->
+    x_st _ _ _ (fst (XSTEP x c)) = x_st _ _ _ x.
+  Proof.
+    intros Hi Hk. unfold x_step. rewrite Hi. destruct (kind c); try reflexivity. contradiction.
+  Qed.
+
+  (* every command other than EXEC / DISCARD / MULTI / WATCH is queued and answered QUEUED *)
+  Lemma x_queued_reply (x : xstate) c : x_in _ _ _ x = true ->
+    kind c <> KExec -> kind c <> KDiscard -> kind c <> KMulti -> (forall ks, kind c <> KWatch ks) ->
+    XSTEP x c = (mkX _ _ _ (x_st _ _ _ x) true (x_queue _ _ _ x ++ [c]) (x_watched _ _ _ x), RSimple (str "QUEUED")).
+  Proof.
+    intros Hi H1 H2 H3 H4. unfold x_step. rewrite Hi.
+    destruct (kind c) eqn:E; try reflexivity; try contradiction. exfalso. exact (H4 keys eq_refl).
+  Qed.
+
+  Lemma x_run_length : forall q s, length (snd (XRUN s q)) = length q.
+  Proof.
+    induction q as [|c q IH]; intros s; [reflexivity|]. cbn [x_run].
+    destruct (x_exec1 St cmd exec_plain kind s c) as [s1 r]. specialize (IH s1).
+    destruct (XRUN s1 q). cbn in *. now rewrite IH.
+  Qed.
+
+  Lemma x_run_snoc : forall q s c,
+    XRUN s (q ++ [c]) =
+    (fst (x_exec1 St cmd exec_plain kind (fst (XRUN s q)) c),
+     snd (XRUN s q) ++ [snd (x_exec1 St cmd exec_plain kind (fst (XRUN s q)) c)]).
+  Proof.
+    induction q as [|d q IH]; intros s c; cbn [x_run app].
+    - cbn [fst snd app]. destruct (x_exec1 St cmd exec_plain kind s c). reflexivity.
+    - destruct (x_exec1 St cmd exec_plain kind s d) as [s1 r]. rewrite IH. destruct (XRUN s1 q). reflexivity.
+  Qed.
+
+  (* EXEC: all or nothing *)
+  Lemma x_exec_applies (x : xstate) c : x_in _ _ _ x = true -> kind c = KExec ->
+    XVIOL (x_st _ _ _ x) (x_watched _ _ _ x) = false ->
+    XSTEP x c = (mkX _ _ _ (fst (XRUN (x_st _ _ _ x) (x_queue _ _ _ x))) false [] [],
+                 RArr (snd (XRUN (x_st _ _ _ x) (x_queue _ _ _ x)))).
+  Proof.
+    intros Hi Hk Hv. unfold x_step. rewrite Hi, Hk, Hv. now destruct (XRUN (x_st St cmd V x) (x_queue St cmd V x)).
+  Qed.
+
+  Lemma x_exec_aborts (x : xstate) c : x_in _ _ _ x = true -> kind c = KExec ->
+    XVIOL (x_st _ _ _ x) (x_watched _ _ _ x) = true ->
+    XSTEP x c = (mkX _ _ _ (x_st _ _ _ x) false [] [], RNilBulk).
+  Proof. intros Hi Hk Hv. unfold x_step. now rewrite Hi, Hk, Hv. Qed.
+
+  Lemma x_discard (x : xstate) c : x_in _ _ _ x = true -> kind c = KDiscard ->
+    XSTEP x c = (mkX _ _ _ (x_st _ _ _ x) false [] [], RSimple (str "OK")).
+  Proof. intros Hi Hk. unfold x_step. now rewrite Hi, Hk. Qed.
+
+  Lemma x_violated_iff s w :
+    XVIOL s w = true <-> exists k old, In (k, old) w /\ veqb (read_key s k) old = false.
+  Proof.
+    unfold x_violated. rewrite existsb_exists. split.
+    - intros ([k old] & Hin & H). cbn in H. apply negb_true_iff in H. eauto.
+    - intros (k & old & Hin & H). exists (k, old). split; [exact Hin|]. cbn. now rewrite H.
+  Qed.
+
+  (* WATCH never replaces or drops an entry; a key not yet watched gets the value it has now *)
+  Lemma x_watch_keeps : forall ks s w k v, In (k, v) w -> In (k, v) (XWATCH s w ks).
+  Proof.
+    induction ks as [|k0 ks IH]; intros s w k v H; [exact H|]. cbn [x_watch]. apply IH.
+    destruct (x_has V k0 w); [exact H|]. apply in_or_app. now left.
+  Qed.
+
+  Lemma x_has_in : forall w k, x_has V k w = true <-> exists v, In (k, v) w.
+  Proof.
+    induction w as [|[k' v'] w IH]; intros k; cbn [x_has].
+    - split; [discriminate|]. intros [v []].
+    - rewrite orb_true_iff, IH, bytes_eqb_spec. split.
+      + intros [->|[v H]]; [exists v'; now left|exists v; now right].
+      + intros [v [H|H]]; [inversion H; now left|right; eauto].
+  Qed.
+
+  Lemma x_has_app w1 w2 k : x_has V k (w1 ++ w2) = x_has V k w1 || x_has V k w2.
+  Proof.
+    induction w1 as [|[k' v'] w1 IH]; [reflexivity|]. cbn [app x_has]. rewrite IH. now rewrite orb_assoc.
+  Qed.
+
+  (* a key named by WATCH that was not watched before is recorded with the value it has now *)
+  Lemma x_watch_fresh : forall ks s w k, In k ks -> x_has V k w = false ->
+    In (k, read_key s k) (XWATCH s w ks).
+  Proof.
+    induction ks as [|k0 ks IH]; intros s w k Hin Hw; [destruct Hin|]. cbn [x_watch].
+    destruct (bytes_eqb k k0) eqn:Ek.
+    - apply bytes_eqb_spec in Ek. subst k0. rewrite Hw. apply x_watch_keeps. apply in_or_app. right. now left.
+    - destruct Hin as [->|Hin]; [assert (Hr : bytes_eqb k k = true) by (apply bytes_eqb_spec; reflexivity); congruence|].
+      apply IH; [exact Hin|]. destruct (x_has V k0 w); [exact Hw|].
+      rewrite x_has_app, Hw. cbn [x_has orb]. now rewrite Ek.
+  Qed.
+
+  (* a watch entry survives every command except UNWATCH (outside a transaction) and EXEC / DISCARD
+     (inside one): in particular later WATCHes of the same key and any command in between *)
+  Lemma x_step_keeps_watch (x : xstate) c k v :
+    (x_in _ _ _ x = false -> kind c <> KUnwatch) ->
+    (x_in _ _ _ x = true -> kind c <> KExec /\ kind c <> KDiscard) ->
+    In (k, v) (x_watched _ _ _ x) -> In (k, v) (x_watched _ _ _ (fst (XSTEP x c))).
+  Proof.
+    intros H1 H2 Hin. unfold x_step. destruct (x_in St cmd V x) eqn:Ei.
+    - destruct (H2 eq_refl) as [Ha Hb]. destruct (kind c); cbn; try exact Hin; contradiction.
+    - specialize (H1 eq_refl). destruct (kind c); cbn; try exact Hin; try contradiction.
+      + now apply x_watch_keeps.
+      + destruct (exec_plain (x_st St cmd V x) c). exact Hin.
+      + destruct (exec_plain (x_st St cmd V x) c). exact Hin.
+      + destruct (exec_plain (x_st St cmd V x) c). exact Hin.
+      + destruct (exec_plain (x_st St cmd V x) c). exact Hin.
+  Qed.
+
+  (* so: if the value under a watched key at EXEC differs from ANY recorded snapshot - the first WATCH of
+     the key included - EXEC answers nil and changes nothing *)
+  Theorem x_exec_nil_iff (x : xstate) c : x_in _ _ _ x = true -> kind c = KExec ->
+    ((exists k old, In (k, old) (x_watched _ _ _ x) /\ veqb (read_key (x_st _ _ _ x) k) old = false) ->
+       XSTEP x c = (mkX _ _ _ (x_st _ _ _ x) false [] [], RNilBulk)) /\
+    ((forall k old, In (k, old) (x_watched _ _ _ x) -> veqb (read_key (x_st _ _ _ x) k) old = true) ->
+       XSTEP x c = (mkX _ _ _ (fst (XRUN (x_st _ _ _ x) (x_queue _ _ _ x))) false [] [],
+                    RArr (snd (XRUN (x_st _ _ _ x) (x_queue _ _ _ x)))) /\
+       length (snd (XRUN (x_st _ _ _ x) (x_queue _ _ _ x))) = length (x_queue _ _ _ x)).
+  Proof.
+    intros Hi Hk. split.
+    - intros H. apply x_exec_aborts; auto. now apply x_violated_iff.
+    - intros H. split; [|apply x_run_length]. apply x_exec_applies; auto.
+      destruct (XVIOL (x_st St cmd V x) (x_watched St cmd V x)) eqn:E; [|reflexivity].
+      apply x_violated_iff in E. destruct E as (k & old & Hin & Hf). rewrite (H k old Hin) in Hf. discriminate.
+  Qed.
+End XTx.
+
+Lemma x_nonvacuous_c05 :
+  let run (l : list (list string)) :=
+    fold_left (fun p c => let '(x, _) := p in
+                          match mdecode (frame (map str c)) with
+                          | inl cm => mx_step x cm
+                          | inr _ => p
+                          end) l (x_init _ _ _ m0, R_OK) in
+  snd (run [["LPUSH"; "k"; "a"]; ["WATCH"; "k"]; ["LPUSH"; "k"; "b"]; ["MULTI"]; ["SET"; "j"; "1"]; ["EXEC"]]%string) = RNilBulk /\
+  snd (run [["SET"; "k"; "a"]; ["WATCH"; "k"]; ["SET"; "k"; "b"]; ["WATCH"; "k"]; ["MULTI"]; ["SET"; "j"; "1"]; ["EXEC"]]%string) = RNilBulk /\
+  snd (run [["SET"; "k"; "a"]; ["WATCH"; "k"]; ["SET"; "k"; "b"]; ["MULTI"]; ["EXEC"]]%string) = RNilBulk /\
+  snd (run [["SET"; "k"; "a"]; ["WATCH"; "k"]; ["GET"; "k"]; ["MULTI"]; ["INCR"; "k"]; ["SET"; "j"; "1"]; ["EXEC"]]%string)
+    = RArr [RError (str "ERR value is not an integer or out of range"); RSimple (str "OK")].
+Proof. cbv zeta. repeat split; vm_compute; reflexivity. Qed.
